@@ -125,6 +125,9 @@ NPOOL = len(POOL)
 DOC = tg.doc('forms_hp')
 DOC2 = tg.doc('plain_hp')
 NSMAP = {'x': 'urn:x', 'svg': 'http://www.w3.org/2000/svg'}
+NSMAP_D = {'': 'http://www.w3.org/1999/xhtml', 'x': 'urn:x', 'svg': 'http://www.w3.org/2000/svg'}
+XDOC = tg.doc('xml')
+H5DOC = tg.doc('plain_h5')
 
 
 WRAPS = [('', ''), ('', '\n'), ('\n', ''), (' ', ' '), ('', '\r\n'), ('', '/**/'), ('\t', ' /* c */\n'), ('\n\n', '\f')]
@@ -151,6 +154,14 @@ def debug_flag_ok(i: int) -> bool:
                 r2 = [id(e) for d in (DOC, DOC2) for e in b.select(d)]
             r1 = [id(e) for d in (DOC, DOC2) for e in a.select(d)]
             ok = ok and a.selectors == b.selectors and r1 == r2 and hash(a.selectors) == hash(b.selectors)
+            if (pre, post) == ('', ''):
+                # the same under a map with a default namespace, on namespace-aware trees
+                a2 = sv.compile(s, NSMAP_D)
+                with contextlib.redirect_stdout(buf):
+                    b2 = sv.compile(s, NSMAP_D, flags=sv.DEBUG)
+                    r4 = [id(e) for d in (XDOC, H5DOC) for e in b2.select(d)]
+                r3 = [id(e) for d in (XDOC, H5DOC) for e in a2.select(d)]
+                ok = ok and a2.selectors == b2.selectors and r3 == r4
             if base is None:
                 base = (a.selectors, r1)
             ok = ok and a.selectors == base[0] and r1 == base[1]
@@ -264,3 +275,27 @@ def debug_errors_ok(i: int) -> bool:
                 except NotImplementedError as e:
                     return ('nie', str(e))
         return ret(attempt(0) == attempt(sv.DEBUG))
+
+
+# Bounded enumeration companion of context_ok over a wider alphabet: only \n, \r\n and \r end a line; \f, \v, the C0/C1
+# separators and U+2028/U+2029 are ordinary characters of the line.
+ENUM_ALPHA = ['a', '\n', '\r', '\f', '\v', '\x1c', '\x85', ' ', ' ', ' ']
+ENUM_PATTERNS = part([''.join(t) for n in range(0, 5) for t in __import__('itertools').product(ENUM_ALPHA, repeat=n)])
+ENUM_PB = 64
+
+
+def context_enum_ok(bi: int) -> bool:
+    """
+    pre: 0 <= bi * ENUM_PB < len(ENUM_PATTERNS)
+    post: _
+    """
+    bi = concrete(bi)
+    with notrace():
+        for p in ENUM_PATTERNS[bi * ENUM_PB:(bi + 1) * ENUM_PB]:
+            for index in range(len(p) + 1):
+                if tuple(util.get_pattern_context(p, index)) != tuple(ref_context(p, index)):
+                    return ret(False)
+                e = util.SelectorSyntaxError('m', p, index)
+                if (e.context, e.line, e.col) != tuple(ref_context(p, index)):
+                    return ret(False)
+    return ret(True)
